@@ -237,6 +237,7 @@ void conn_run(const Plan *p, const CredSet *cs, HonestOut *out,
 	void (*pre_run)(Endpoint *cl, Endpoint *sv));
 
 extern int (*g_quiesce_hook)(void);
+int quiesce_handler(void);     /* releases held traffic, then closes every connection once (peer timeout) */
 void honest_oracle(const Plan *p, const HonestOut *o, RunResult *r);
 
 /* monitors */
